@@ -146,7 +146,7 @@ class Oracle:
             if c["cur"] is not None and c["cur"] not in pos:
                 return "iter %d: cursor of client %d points outside the queue" % (it, c["id"])
             if c["cur"] is not None and c["st"] == 2 and c["all"] == 0 and self.reconfigured:
-                # known (D6): the device was re-programmed (norm change) and no longer grants this client anything;
+                # known (D7): the device was re-programmed (norm change) and no longer grants this client anything;
                 # vbi_proxyd_update_services set all_services = 0 but left the cursor in the queue
                 return "grant-lost: client %d keeps its queue cursor although the device grants it nothing any more" % c["id"]
             if c["cur"] is not None and not (c["st"] == 2 and c["all"] != 0):
@@ -303,12 +303,6 @@ class Oracle:
             pc = [x for x in prev["clients"] if x["id"] == k]
             if pc and pc[0]["cur"] == prev["q"][0][0] and e["seq"] == prev["q"][0][0]:
                 return "overflow"        # the client lagged by the whole queue
-            if pc and len(prev["q"]) > 1 and pc[0]["cur"] == prev["q"][1][0] and e["seq"] == prev["q"][1][0]:
-                # known: force_free re-reads the head inside its loop
-                order = [x["id"] for x in prev["clients"]]
-                heads = [x["id"] for x in prev["clients"] if x["cur"] == prev["q"][0][0]]
-                if heads and all(order.index(h) < order.index(k) for h in heads[-1:]):
-                    return "known-force-free-second"
         return None
 
     def finish(self):
@@ -325,10 +319,6 @@ class Oracle:
             bad = []
             for e in undeliv:
                 if e["why"] in ("closed", "flush", "own-service-change", "overflow", "grant-lost"):
-                    continue
-                if e["why"] == "known-force-free-second":
-                    self.note_known("force-free-second: a client that is one frame ahead of a stalled client loses a frame "
-                                    "when the queue overflows (vbi_proxy_queue_force_free re-reads the queue head inside its loop)")
                     continue
                 bad.append(e)
             # one message may still sit in the daemon's write buffer: the frame sent last
